@@ -11,6 +11,11 @@ Decided statically (valid for every call history because nothing here depends on
  (d) no alignment dependence: no alignment-sensitive load/store (IR alignment above the natural alignment of the
      scalar element) on memory provided by the caller through a data or scratch parameter, over every exported
      entry point and all dispatch candidates.
+ (h) history independence of the cached convenience API: for every *_simple function, every sequence of three (thorough:
+     four) calls over a box of parameter tuples (two dimensions x two values of every other parameter) is instantiated in
+     one machine (the static cache persists between the calls) and the table handed to the kernel by the last call -
+     dispatch pointer, dimension, divisor and every other scalar field - must equal the table a fresh process builds for
+     the same arguments.
  (c) 'outputs do not depend on previous contents of out/scratch' is decided by the region engine and reported
      under C11 (read-before-write of scratch/out); it is referenced, not repeated, here."""
 from .. import ctx
@@ -113,6 +118,112 @@ def rule_d(L, E, R, prefix=''):
     return n
 
 
+def history_independence(L, R, cs, tier):
+    """(h) cached tables equal freshly built tables after any call sequence of the box"""
+    import itertools
+    import re
+    from ..harness import Ctx
+    from ..machine import Runaway
+    from ..trusted import TRUSTED
+    from ..vals import Aborted, FnPtr, NeedEnum, Ptr, Unsupported, is_int
+    nseq = 0
+    for C in cs:
+        f = C.f
+        da = f.d.get('dbgargs') or []
+        if not C.slot_candidates or len(da) != len(f.args):
+            continue
+        doms = []
+        maxm = 16
+        for a, d in zip(f.args, da):
+            nm = d['name']
+            if a['ty']['k'] == 'ptr':
+                doms.append(['buf:' + nm])
+            elif a['ty']['k'] == 'fp':
+                doms.append([2.0, 8.0])
+            elif nm in ('m', 'nn', 'n'):
+                doms.append([4, 16])
+            elif 'log2' in nm:
+                doms.append([10, 18])
+            else:
+                doms.append([1, 2])
+        tuples = list(itertools.product(*doms))[:8]
+        struct_sz = 64
+        for cand in C.slot_candidates:
+            t = L.fn(cand)
+            if t is not None and t.args and t.args[0]['ty']['k'] == 'ptr':
+                mm = re.match(r'%([A-Za-z0-9_.]+)\*', t.args[0]['ty']['s'])
+                if mm and mm.group(1) in L.structs:
+                    struct_sz = L.structs[mm.group(1)]['size']
+
+        def table_after(c, tup):
+            c.m.trace_names = set(C.slot_candidates)
+            c.m.trace = []
+            args = []
+            for v in tup:
+                if isinstance(v, str):
+                    args.append(c.buf(v[4:] + str(len(c.objs)), 64 * maxm + 256, 'inout'))
+                else:
+                    args.append(v)
+            st, _, _ = c.run(f.name, args)
+            del c.m.events[:]
+            tr = c.m.trace
+            c.m.trace_names = set()
+            if st != 'ok' or not tr:
+                return ('status', st)
+            p = tr[-1][1][0]
+            if not isinstance(p, Ptr) or p.obj.fields is None or not is_int(p.off):
+                return ('status', 'table pointer %r' % (p,))
+            snap = {}
+            for o, (sz, v) in p.obj.fields.items():
+                if p.off <= o < p.off + struct_sz:
+                    if isinstance(v, FnPtr):
+                        snap[o - p.off] = ('fn', v.name)
+                    elif is_int(v) or isinstance(v, float):
+                        snap[o - p.off] = v
+            return ('table', tuple(sorted(snap.items(), key=str)), tr[-1][0])
+
+        bad = None
+        aborted = False
+        for cpu in ('accel', 'generic'):
+            fresh = {}
+            for tup in tuples:
+                try:
+                    fresh[tup] = table_after(Ctx(L, cpu=cpu, trusted=TRUSTED), tup)
+                except (Unsupported, NeedEnum, Aborted, Runaway) as e:
+                    fresh[tup] = ('status', str(e))
+            if all(v[0] == 'status' for v in fresh.values()):
+                aborted = True
+                continue
+            for seq in itertools.product(tuples, repeat=3 if tier == 'quick' else 4):
+                if len(set(seq)) == 1:
+                    continue
+                c = Ctx(L, cpu=cpu, trusted=TRUSTED)
+                last = None
+                try:
+                    for tup in seq:
+                        last = table_after(c, tup)
+                except (Unsupported, NeedEnum, Aborted, Runaway) as e:
+                    last = ('status', str(e))
+                nseq += 1
+                want = fresh[seq[-1]]
+                if last != want and want[0] == 'table':
+                    bad = bad or (seq, 'after the calls %s the table used is %s, a fresh process uses %s' % (
+                        [tuple(x for x in t if not isinstance(x, str)) for t in seq], last[1:] if last else last, want[1:]))
+                    break
+            if bad:
+                break
+        subj = f.name
+        if bad:
+            R.ob('cached-table-equals-fresh-table-after-any-history', subj, 'refuted', detail=bad[1],
+                 key='%s:history' % f.name, witness={'sequence': [[x for x in t if not isinstance(x, str)] for t in bad[0]]}, loc=f.loc)
+        elif aborted and nseq == 0:
+            R.ob('cached-table-equals-fresh-table-after-any-history', subj, 'holds', nontrivial=False,
+                 detail='every kernel behind the table aborts')
+        else:
+            R.ob('cached-table-equals-fresh-table-after-any-history', subj, 'holds')
+    return nseq
+
+
 def run(tier):
     R = Report('C15', tier)
     L, G, E = ctx.lib(), ctx.cg(), ctx.effects()
@@ -120,6 +231,8 @@ def run(tier):
         R.broke('call graph incomplete')
     cs = rule_b(L, G, E, R)
     na = rule_a(L, G, E, R, cs)
+    nh = history_independence(L, R, cs, tier)
+    R.floor('call sequences instantiated for history independence', nh, 1500)
     nd = rule_d(L, E, R)
     # module-level functions must not touch the caches at all (hidden state behind a MODULE entry point)
     from .C12 import rule1
